@@ -193,6 +193,7 @@ func (k *check) transparencyJobs() (jobs, post []func()) {
 	}
 	addTagFile(e2ePkgs)
 	e2e := []func(){
+		func() { k.e2eTags(e2ePkgs) },
 		func() { k.e2eTransparency(e2ePkgs) },
 		func() { k.e2eStaleness(e2ePkgs) },
 		func() { k.e2eSentinel() },
@@ -477,11 +478,10 @@ func (k *check) e2eTransparency(pkgs []corpusPkg) {
 	prog := p.dir
 	files := readFiles(prog)
 	home := c.Dir("e2e-cache")
-	var none, tnone buildRes
+	var none buildRes
 	var wg sync.WaitGroup
-	wg.Add(2)
+	wg.Add(1)
 	go func() { defer wg.Done(); none = k.build(prog, home, "none", "none", "", p.env...) }()
-	go func() { defer wg.Done(); tnone = k.build(prog, home, "none", "tag-none", "c20tag", p.env...) }()
 	cold := k.build(prog, home, "on", "cold", "", p.env...)
 	wg.Wait()
 	if k.e2eFail("none", none) || k.e2eFail("cold", cold) {
@@ -512,8 +512,32 @@ func (k *check) e2eTransparency(pkgs []corpusPkg) {
 	c.Sample(map[string]any{"e2e": "corpus program", "packages": len(none.stats.Packages), "cold_misses": len(cold.stats.LoadMiss), "cold_stores": len(cold.stats.StoreOK),
 		"warm_hits": len(warm.stats.LoadHits), "warm_misses": len(warm.stats.LoadMiss), "js_bytes": len(none.js)})
 
-	// other build tags: another configuration, nothing may be shared
+}
+
+// e2eTags: another tag set on the same cache directory is another configuration – nothing may
+// be shared in either direction.
+func (k *check) e2eTags(pkgs []corpusPkg) {
+	c := k.c
+	const prefix = "e2e/corpus-program"
+	p := k.writeE2E(pkgs)
+	prog := p.dir
+	files := readFiles(prog)
+	home := c.Dir("e2e-cache")
+	var none, tnone buildRes
+	var wg sync.WaitGroup
+	wg.Add(2)
+	go func() { defer wg.Done(); none = k.build(prog, home, "none", "none", "", p.env...) }()
+	go func() { defer wg.Done(); tnone = k.build(prog, home, "none", "tag-none", "c20tag", p.env...) }()
+	cold := k.build(prog, home, "on", "cold", "", p.env...)
+	if k.e2eFail("cold(tags)", cold) {
+		wg.Wait()
+		return
+	}
 	tcold := k.build(prog, home, "on", "tag-cold", "c20tag", p.env...)
+	wg.Wait()
+	if k.e2eFail("none(tags)", none) {
+		return
+	}
 	if k.e2eFail("tag-none", tnone) || k.e2eFail("tag-cold", tcold) {
 		return
 	}
@@ -528,8 +552,10 @@ func (k *check) e2eTransparency(pkgs []corpusPkg) {
 		k.violate(prefix+"/other-tags-js", "JavaScript of the tagged build with cache differs from the tagged NoCache build: "+jsDiff(tnone.js, tcold.js), files)
 	}
 	var twarm, warm2 buildRes
-	twarm = k.build(prog, home, "on", "tag-warm", "c20tag", p.env...)
+	wg.Add(1)
+	go func() { defer wg.Done(); twarm = k.build(prog, home, "on", "tag-warm", "c20tag", p.env...) }()
 	warm2 = k.build(prog, home, "on", "warm2", "", p.env...)
+	wg.Wait()
 	if !k.e2eFail("tag-warm", twarm) {
 		k.eval(1)
 		k.expectWarm(prefix+"/tagged", twarm, tcold.stats.StoreOK, files)
